@@ -403,10 +403,18 @@ func (c *FnCtx) evalBin(env *SpecEnv, e *Expr) (Val, error) {
 		default:
 			return boolVal(eq(a.S, b.S)), nil
 		}
-	case "==":
+	case "==", "!=":
+		// an interface compared with a value of a zero-size struct type (e.g. http.NoBody): the
+		// value is boxed to the one interface value of that type
+		if a.K == KIface && b.K == KStruct && len(b.F) == 0 {
+			b = Val{T: a.T, K: KIface, S: c.zeroBox(b.T)}
+		} else if b.K == KIface && a.K == KStruct && len(a.F) == 0 {
+			a = Val{T: b.T, K: KIface, S: c.zeroBox(a.T)}
+		}
+		if op == "!=" {
+			return boolVal(not(valEq(a, b))), nil
+		}
 		return boolVal(valEq(a, b)), nil
-	case "!=":
-		return boolVal(not(valEq(a, b))), nil
 	}
 	if !a.IsScalar() || !b.IsScalar() {
 		return Val{}, fmt.Errorf("arithmetic on composite values in %s", e)
